@@ -1,4 +1,5 @@
 import TxdbusModel.Proofs.Bus.RouteMain
+import TxdbusModel.Gen.Route
 /-!
 # C14 - the built-in bus delivers each message to the right peer with the true sender
 
@@ -270,6 +271,11 @@ example : (step repaired (final repaired State.init setup) (.msg 0 (sigFrom 6) (
 example : heldAfter (setup ++ [.disconnect 2 []]) = [] := by decide
 example : heldAfter setup = [(2, ruleI)] := by decide
 
+/-- The driver's rule predicate evaluates exactly the keys of the tuple in `router.Rule.add` (table generated
+from router.py by C12's translator): if router.py starts to evaluate another key - `sender`, say - this
+stops checking and `SimpleRule.holds` has to follow. -/
+theorem simple_rule_keys_are_the_routers : SimpleRule.evaluatedKeys = Txdbus.Gen.Route.simpleKeys := by decide
+
 /-! ## the code before the repairs violates the property (these are the replays) -/
 
 /-- F21: before the repair, the call from client 0 to :1.2 ALSO reaches client 2, which only holds a
@@ -308,5 +314,6 @@ end Txdbus.BusRoute
 #print axioms Txdbus.BusRoute.rules_held_by_connected_clients
 #print axioms Txdbus.BusRoute.broadcast_exact
 #print axioms Txdbus.BusRoute.sender_constraint_is_ignored
+#print axioms Txdbus.BusRoute.simple_rule_keys_are_the_routers
 #print axioms Txdbus.BusRoute.original_unicast_reaches_rule_holder
 #print axioms Txdbus.BusRoute.original_rule_outlives_its_client
